@@ -180,7 +180,7 @@ class C04(Check):
             # functions after the first message of pair p has arrived is descheduled j_p steps after entry for
             # 0.2 s, so that the second message goes through the other threads exactly then.  Every message must
             # reach the parked consumer within D_local of its arrival (see the oracle), not only by the end.
-            P = rng.choice([4, 6, 8])
+            P = rng.choice([8, 12, 16])
             msgs = [{"kind": rng.choice(["app_req", "app_ans"]), "pad": rng.choice([0, 0, 17]), "dhost": False,
                      "code": rng.choice([316, 318])} for _ in range(2 * P)]
             bursts = []
@@ -250,9 +250,44 @@ class C04(Check):
             scn["sched"]["quantum"] = min(scn["sched"].get("quantum", 2e-6), 2e-6)
             scn["net"]["max_latency"] = min(scn["net"]["max_latency"], 0.003)
             scn["horizon"] = 200.0
+            # the consumer positions are tiled over the run indices (not drawn), as fractions of the function's measured
+            # length: where the critical window of a given implementation lies depends on the scenario (tracing
+            # granularity, message shape), so positions are placed along a fault-free baseline of the same run
+            kk = index // 8
+            depth2 = (kk % 4 != 3)
+            scn["pairs_depth2"] = depth2
             for p_ in range(len(scn["msgs"]) // 2):
-                scn["func_stalls"].append({"func": rng3.choice(HANDOVER_FUNCS[:5]), "call": None, "after": 5.0 * p_ + 0.0001,
-                                           "line": rng3.randrange(0, 48), "dur": 0.2})
+                after = 5.0 * p_ + 0.0001
+                if depth2 and p_ == 0:
+                    continue        # baseline pair: no fault, the hand-over functions are measured
+                if depth2:
+                    # depth two: both messages of the pair arrive in ONE segment; the state machine thread is descheduled
+                    # as it enters the hand-over of the SECOND message (which it has already taken from the receive
+                    # queue), the consumer is descheduled once before it takes its lock and once more at line j of the
+                    # hand-over function (j swept) -- producer "about to publish" x every consumer position
+                    scn["func_stalls"].append({"func": "State.notify_postprocess_message", "call": None, "after": after, "nth": 2,
+                                               "line": rng3.randrange(0, 3), "dur": 0.15})
+                    fc = "DiameterAssociation.get_message" if (kk // 16) % 4 == 3 else "DiameterAssociation.get_postprocess_recv_message"
+                    # position = a fraction of the function's length as measured on the calls of this very run that
+                    # had no fault in them (the first pair carries none); the fractions of all pairs of all runs form a
+                    # low-discrepancy sequence over [0, 1)
+                    jc = ((16 * kk + p_) * 0.6180339887498949) % 1.0
+                    scn["func_stalls"].append({"func": fc, "call": None, "after": after, "line": 0, "dur": 0.05})
+                    scn["func_stalls"].append({"func": fc, "call": None, "after": after, "line": jc, "dur": 0.3})
+                else:
+                    scn["func_stalls"].append({"func": rng3.choice(HANDOVER_FUNCS[:5]), "call": None, "after": after,
+                                               "line": rng3.randrange(0, 48), "dur": 0.2})
+            if depth2:
+                for b_ in scn["bursts"]:
+                    if b_["msgs"][0] % 2 == 1:
+                        b_["at"] -= 0.05        # second message of the pair: same instant as the first
+                merged = []
+                for b_ in scn["bursts"]:
+                    if merged and abs(merged[-1]["at"] - b_["at"]) < 1e-9:
+                        merged[-1]["msgs"] = merged[-1]["msgs"] + b_["msgs"]
+                    else:
+                        merged.append(b_)
+                scn["bursts"] = merged
         if not special and rng3.random() < 0.5:
             scn["stalls"] = draw_stalls(rng3, threads=("psm_thread", "transport_layer_thread", "recv_message_monitor", "consumer"),
                                         span=2000)
@@ -261,6 +296,13 @@ class C04(Check):
                 scn["func_stalls"].append({
                     "func": rng3.choice(HANDOVER_FUNCS), "call": rng3.randrange(1, napp + 3),
                     "line": rng3.randrange(0, 14), "dur": rng3.choice([0.002, 0.02, 0.1, 0.4])})
+        if scn.get("end_with_dpr"):
+            # the peer closes right behind its last message: what the application has not picked up when the linger
+            # is over goes down with the connection, so a consumer descheduled for longer than the linger proves
+            # nothing -- no stall faults on the application side in these runs
+            scn["stalls"] = [x for x in scn["stalls"] if x["thread"] != "consumer"]
+            scn["func_stalls"] = [x for x in scn["func_stalls"] if x["func"] not in (
+                "DiameterAssociation.get_message", "DiameterAssociation.get_postprocess_recv_message")]
         return scn
 
     def shrink(self, scn):
@@ -384,10 +426,11 @@ class C04(Check):
             # what was delivered is recorded at the moment of delivery: the message belongs to the application from
             # here on, and in some runs the application rewrites it (a relay rewrites Destination-Host / -Realm and
             # the identifiers before forwarding; here every AVP and the identifiers are overwritten)
-            try:
-                delivered_keys.append(msg_key_lib(m))
-            except BaseException as e:      # noqa
-                delivered_keys.append(("undecodable", repr(e)))
+            with sim.untraced():        # harness bookkeeping: costs no simulated time, cannot be descheduled
+                try:
+                    delivered_keys.append(msg_key_lib(m))
+                except BaseException as e:      # noqa
+                    delivered_keys.append(("undecodable", repr(e)))
             if scn.get("scribble"):
                 stats["scribbled"] = stats.get("scribbled", 0) + 1
                 for a in list(m.avps):
@@ -417,6 +460,8 @@ class C04(Check):
             if scn.get("consumer_early"):
                 w.start_consumer(on_msg=on_delivered)
             sim.func_calls.clear()
+            if scn.get("pairs_depth2"):
+                sim.func_watch.update(["DiameterAssociation.get_postprocess_recv_message", "DiameterAssociation.get_message"])
             t_first = sim.now + 0.01        # = t0 of the bursts below
             install_func_stalls(sim, [dict(fs, t0=t_first) for fs in (scn.get("func_stalls") or ())])
             stats["stalls_planned"] = w.apply_stalls(scn.get("stalls")) + len(scn.get("func_stalls") or ())
@@ -493,7 +538,17 @@ class C04(Check):
                 if not busy:
                     idle[0] += now - idle[1]
                 idle[1] = now
-                return len(w.delivered) >= len(expected) or idle[0] >= D
+                if idle[0] >= D:
+                    return True
+                if len(delivered_keys) < len(expected):
+                    return False
+                # ... and the watchdog requests sent have been answered (they may have been sent after the last
+                # application message and be held up by the same stalled thread)
+                n_dwr = sum(1 for s_ in scn["msgs"] if s_["kind"] == "dwr")
+                if not n_dwr:
+                    return True
+                out_, _ = w.node_tx_messages()
+                return sum(1 for m_ in out_ if m_["code"] == C.DW and not C.is_request(m_)) >= n_dwr
             sim.wait_until(waited_enough, scn.get("horizon", 120.0), poll=D / 40.0)
             # a little longer to catch duplicates / spurious deliveries
             sim.sleep(min(1.0, 20 * tick + 0.1))
@@ -519,7 +574,7 @@ class C04(Check):
             # sits next to a sleeping consumer until other traffic wakes it up was not delivered in any useful sense
             kn = w.world.knobs
             d_local = 1.0 + kn["TRACKING_SOCKET_EVENTS_TIMEOUT"] + 30 * tick + 2 * 40000 * sim.quantum + 0.2 + 0.2 + \
-                4 * w.net.cfg.max_latency
+                4 * w.net.cfg.max_latency + (0.5 if scn.get("pairs_depth2") else 0.0)
             sent_at = {}
             for ev in w.hist.of("peer_tx"):
                 m_ = ev.get("msg")
